@@ -27,7 +27,8 @@
 From Coq Require Import Reals List Permutation.
 From OPF Require Import Base.Lists Base.NumOps Base.TotalOrder Model.Heap Model.Knn Model.Pdf Model.KnnFit
   Model.KnnPredict Proofs.PdfBase Proofs.Lift2Knn Proofs.KnnPipeline Proofs.KnnPipelineExample
-  Proofs.KnnPredictPipeline Proofs.KnnPredictPipelineMain Proofs.KnnPredictPipelineExample.
+  Proofs.KnnPredictPipeline Proofs.KnnPredictPipelineMain Proofs.KnnPredictPipelineExample
+  Proofs.KnnPipelineConstant Proofs.KnnLinkExample.
 Import ListNotations.
 Local Open Scope R_scope.
 
@@ -242,3 +243,107 @@ Theorem C14_pipeline_example_unsup :
     cluster_of g'' answer = nth r (k_clabel g') 0%nat /\
     (cluster_of g'' answer < k_nclusters g')%nat.
 Proof. exact exq_unsup. Qed.
+
+(* ---------- the [_exp] corollaries with NO hypothesis about a training output ----------
+
+   create_arcs ends with `if self.density < 0.00001: self.density = 1`, so the density bound it leaves is
+   [one] or at least [thr], whatever the distances are; calculate_pdf records constant = 2 * density / 9.
+   With 0 < thr and 0 < one (the library: 0.00001 and 1) the constant is positive, x |-> exp(-x/c) takes
+   values in (0, 1] on x >= 0, and the hypothesis [0 < c] of the two theorems above is discharged. *)
+
+Theorem C14_pipeline_density_bound_floor :
+  forall (zero fmax thr one : R) (k n : nat) (w : nat -> nat -> R) (g : @knn R),
+    let g1 := fst (create_arcs Rltb zero fmax thr one k n w g) in
+    k_gdens g1 = one \/ thr <= k_gdens g1.
+Proof. exact create_arcs_gdens_floor. Qed.
+
+Theorem C14_pipeline_knn_sup_constant :
+  forall (fmax thr one gdens0 : R) (maxd : BinNums.Z) (k : nat) (labels : list nat) (d e : nat -> nat -> R)
+         (g' : @knn R) (c mn mx : R),
+    knn_sup_final ROps fmax thr one maxd k labels gdens0 d e = (g', (c, mn, mx)) ->
+    (exists gd, c = 2 * gd / 9 /\ (gd = one \/ thr <= gd)) /\ (0 < thr -> 0 < one -> 0 < c).
+Proof.
+  exact (fun fmax thr one gdens0 maxd k labels d e g' c mn mx H =>
+           conj (knn_sup_final_constant_value fmax thr one gdens0 maxd k labels d e g' c mn mx H)
+                (fun Ht Ho => knn_sup_final_constant_pos fmax thr one gdens0 maxd k labels d e g' c mn mx Ht Ho H)).
+Qed.
+
+Theorem C14_pipeline_unsup_constant :
+  forall (fmax thr one gdens0 : R) (maxd : BinNums.Z) (k : nat) (labels : list nat) (d e : nat -> nat -> R)
+         (g' : @knn R) (c mn mx : R),
+    unsup_final ROps fmax thr one maxd k labels gdens0 d e = (g', (c, mn, mx)) ->
+    (exists gd, c = 2 * gd / 9 /\ (gd = one \/ thr <= gd)) /\ (0 < thr -> 0 < one -> 0 < c).
+Proof.
+  exact (fun fmax thr one gdens0 maxd k labels d e g' c mn mx H =>
+           conj (unsup_final_constant_value fmax thr one gdens0 maxd k labels d e g' c mn mx H)
+                (fun Ht Ho => unsup_final_constant_pos fmax thr one gdens0 maxd k labels d e g' c mn mx Ht Ho H)).
+Qed.
+
+Theorem C14_knn_sup_predict_rule_exp_closed :
+  forall (fmax thr one gdens0 eps : R) (k : nat) (labels : list nat) (d e : nat -> nat -> R),
+    let n := length labels in
+    (1 <= k)%nat -> (k <= n)%nat -> 1 <= fmax -> 0 < thr -> 0 < one ->
+    (forall i j, (i < n)%nat -> (j < n)%nat -> i <> j -> 0 <= d i j < fmax) ->
+    (forall i j, (i < n)%nat -> (j < n)%nat -> 0 <= e i j <= 1) ->
+    0 < eps -> 999 <= eps * fmax ->
+    forall (g' : @knn R) (c mn mx : R),
+    knn_sup_final ROps fmax thr one 1000 k labels gdens0 d e = (g', (c, mn, mx)) ->
+    forall dq : nat -> R, (forall j, (j < n)%nat -> 0 <= dq j < fmax) ->
+    let E := fun x => exp (- x / c) in
+    let answer := knn_query ROps fmax eps 1000 E (g', (c, mn, mx)) k dq in
+    0 < c /\
+    (forall x, 0 <= x -> 0 < E x <= 1) /\
+    knn_prediction_rule fmax eps k n E mn mx g' dq answer /\
+    exists s, answer = Some s /\ (s < n)%nat /\ label_of g' answer = nth s labels 0%nat.
+Proof. exact knn_sup_query_rule_exp_closed. Qed.
+
+Theorem C14_unsup_predict_rule_exp_closed :
+  forall (fmax thr one gdens0 eps : R) (k : nat) (labels : list nat) (d e : nat -> nat -> R),
+    let n := length labels in
+    (1 <= k)%nat -> (k <= n)%nat -> 1 <= fmax -> 0 < thr -> 0 < one ->
+    (forall i j, (i < n)%nat -> (j < n)%nat -> i <> j -> 0 <= d i j < fmax) ->
+    (forall i j, (i < n)%nat -> (j < n)%nat -> 0 <= e i j <= 1) ->
+    0 < eps -> 999 <= eps * fmax ->
+    forall (g' : @knn R) (c mn mx : R),
+    (k <= n - 1)%nat ->
+    unsup_final ROps fmax thr one 1000 k labels gdens0 d e = (g', (c, mn, mx)) ->
+    forall dq : nat -> R, (forall j, (j < n)%nat -> 0 <= dq j < fmax) ->
+    let E := fun x => exp (- x / c) in
+    let answer := knn_query ROps fmax eps 1000 E (g', (c, mn, mx)) k dq in
+    let g'' := propagate_labels g' in
+    0 < c /\
+    (forall x, 0 <= x -> 0 < E x <= 1) /\
+    knn_prediction_rule fmax eps k n E mn mx g' dq answer /\
+    knn_query ROps fmax eps 1000 E (with_propagated_labels (g', (c, mn, mx))) k dq = answer /\
+    exists s, answer = Some s /\ (s < n)%nat /\
+      let r := nth s (k_root g') 0%nat in
+      (r < n)%nat /\ nth r (k_pred g') None = None /\
+      label_of g'' answer = nth r labels 0%nat /\
+      cluster_of g'' answer = nth s (k_clabel g') 0%nat /\
+      nth s (k_clabel g') 0%nat = nth r (k_clabel g') 0%nat /\
+      (nth s (k_clabel g') 0%nat < k_nclusters g')%nat.
+Proof. exact unsup_query_rule_exp_closed. Qed.
+
+(* non-vacuity of the closed corollaries: the example data above with thr = 1/100000, one = 1 and the REAL
+   exp terms of the query; the recorded constant is 2/9 of a bound that is 1 or >= 1/100000 *)
+Theorem C14_pipeline_example_sup_exp_closed :
+  0 < 1 / 100000 /\ 0 < 1 /\
+  exists (g' : @knn R) (c mn mx : R),
+    knn_sup_final ROps exq_fmax (1/100000) 1 1000 1 exr_labels 0 exr_d exr_e = (g', (c, mn, mx)) /\
+    let E := fun x => exp (- x / c) in
+    let answer := knn_query ROps exq_fmax exq_eps 1000 E (g', (c, mn, mx)) 1 exq_dq in
+    0 < c /\ (exists gd, c = 2 * gd / 9 /\ (gd = 1 \/ 1 / 100000 <= gd)) /\
+    knn_prediction_rule exq_fmax exq_eps 1 3 E mn mx g' exq_dq answer /\
+    answer = Some 0%nat /\ label_of g' answer = 0%nat.
+Proof. exact (conj (proj1 exl_thr_one) (conj (proj2 exl_thr_one) exl_sup_exp_closed)). Qed.
+
+Theorem C14_pipeline_example_unsup_exp_closed :
+  exists (g' : @knn R) (c mn mx : R),
+    unsup_final ROps exq_fmax (1/100000) 1 1000 1 exr_labels 0 exr_d exr_e = (g', (c, mn, mx)) /\
+    let E := fun x => exp (- x / c) in
+    let answer := knn_query ROps exq_fmax exq_eps 1000 E (g', (c, mn, mx)) 1 exq_dq in
+    0 < c /\ (exists gd, c = 2 * gd / 9 /\ (gd = 1 \/ 1 / 100000 <= gd)) /\
+    knn_prediction_rule exq_fmax exq_eps 1 3 E mn mx g' exq_dq answer /\
+    answer = Some 0%nat /\
+    knn_query ROps exq_fmax exq_eps 1000 E (with_propagated_labels (g', (c, mn, mx))) 1 exq_dq = answer.
+Proof. exact exl_unsup_exp_closed. Qed.
